@@ -1,24 +1,7 @@
-import sys, json, glob
+import sys, json, time
 sys.path.insert(0,'/verif')
 from vf import common
 common.bootstrap()
-from vf import refdict; refdict.all_classes()
-from vf.checks import c08
-import vf.world as W
-orig=W.World.__exit__
-def ex(self,*a):
-    a_=self.d._association
-    t=a_.transport if a_ else None
-    print("STATE", self.state(), "transport", t, t and (t._stop_threads, t.is_connected, getattr(t,'error_has_raised',None)), "assoc stop", a_ and a_._stop_threads, "active", a_ and a_.state_is_active)
-    print("psm running", self.d._peer_state_machine.is_running, "cur", type(self.d._peer_state_machine.current_state).__name__, getattr(self.d._peer_state_machine.current_state,'next_state',None))
-    print("threads", [(t.name,t.state,t.blocked_on,repr(t.exc)) for t in self.sched.threads])
-    import traceback
-    for t in self.sched.threads:
-        if t.exc is not None:
-            print("EXC in", t.name); traceback.print_exception(type(t.exc), t.exc, t.exc.__traceback__)
-    print("log tail", list(self.sched.log)[-12:])
-    return orig(self,*a)
-c08.World.__exit__=ex
-f=sorted(glob.glob('/verif/replays/C08/new-*.json'))[int(sys.argv[1])]
-r=json.load(open(f)); print(r['sig'])
-print(c08.run_one(r['case']))
+from vf.checks import c14
+case={"k":1,"hbh":[0x01020304],"perm":[0],"delays":[0.0],"extras":[],"sched":[],"lines":False,"stagger":0.0,"hold":0}
+t=time.time(); vs,info=c14.run_one(case); print(vs, info, round(time.time()-t,2))
